@@ -1,15 +1,25 @@
 import GoflowModel.Lemmas.CQL
+import GoflowModel.Lemmas.CQLParse
 import GoflowModel.Gen.Grammar
 /-!
 # C14 — Contact queries round-trip through text and cannot be injected into
 
 Model: `ContactQL.Lexer` (the whole ContactQL lexer as a longest-match tokenizer),
 `ContactQL.Ast` (`Condition.String`, `BoolCombination.String`, `Stringify`, `Simplify`,
-`quoteValue` = `flows.ContactQueryEscaping`), `Quote` (`strconv`).  The parser proper (token
-list → tree) is not modelled: the token-level theorems below say that a value occupies exactly
-one `STRING` token whatever surrounds it, which is what "cannot add, drop or alter conditions"
-rests on; tree-level round trips are decided by the monitors and the print/simplify/lexer
-correspondence.
+`quoteValue` = `flows.ContactQueryEscaping`), `Quote` (`strconv`), `ContactQL.Parser` (the parser
+ANTLR generates from `ContactQL.g4` with the visitor, as precedence climbing over the tokens).
+
+* `value_is_one_token`, `value_denotes`: a value occupies exactly one `STRING` token whatever
+  surrounds it and denotes itself — what "cannot add, drop or alter conditions" rests on.
+* `print_parse_query`: **every simplified query, of any size and nesting, printed and parsed
+  again, is the same query** — conditions with every operator, quoted and bare values,
+  `AND`/`OR` combinations of any length with parenthesised sub-combinations.  It goes through a
+  relational reading of the parser (sound against the executable one) and the lemma that
+  `Simplify` flattens the left-nested tree the parser builds for `a AND b AND c`.  The statement is
+  about the printed *tokens*; that the printed text lexes to them is `value_is_one_token` for values
+  and the lexer correspondence for the rest.
+* the parser model is tied to the generated parser by the correspondence `qparse` (real lexer
+  tokens → simplified tree, incl. juxtaposition, mixed precedence and syntax errors).
 -/
 namespace GoflowModel.Props.C14
 open GoflowModel ContactQL Quote LexText
@@ -71,6 +81,37 @@ theorem cond_value_form (pr : Char → Bool) (c : Cond) :
     ∃ p, condString pr c = p ++ [' '] ++ c.op.text ++ [' '] ++
       (if isNumber c.value then c.value else quoteValue pr c.value) := by
   exact ⟨_, rfl⟩
+
+/-- **Round trip of every simplified query**: printed by `Stringify` and parsed by `ParseQuery`
+(then simplified), it is the same query.  `Simp`: every combination has at least two children, none
+of them a combination of the same operator (what `Simplify` leaves); every condition's property
+text is lower-case and resolves to its own type (`fields.…`, `urns.…`, or a known attribute). -/
+theorem print_parse_query (env : PEnv) (pr : Char → Bool) (hpr : pr '\n' = false) (n : Node) (h : Simp env n) :
+    ∃ f0, ∀ f, f0 ≤ f → (parseExpr env f 0 (queryToks pr n)).map (fun p => (simplify p.1, p.2)) = some (some n, []) := by
+  obtain ⟨t, hp, hs⟩ := query_printed env pr hpr n h
+  obtain ⟨f0, hf0⟩ := run_of_qparses hp
+  refine ⟨f0, fun f hf => ?_⟩
+  have := hf0 f hf
+  simp only [run] at this
+  rw [this]
+  simp [hs]
+
+/-- non-vacuity: `name = "Bob" AND (fields.age > 10 OR urns.tel ~ "x y") AND id = 5` is simplified -/
+example : Simp ⟨fun k => k = "name".toList || k = "id".toList, fun _ => false, fun v => ⟨.attr, "name".toList, .contains, v⟩, id⟩
+    (.comb true [.cond ⟨.attr, "name".toList, .eq, "Bob".toList⟩,
+      .comb false [.cond ⟨.field, "age".toList, .gt, "10".toList⟩, .cond ⟨.urn, "tel".toList, .contains, "x y".toList⟩],
+      .cond ⟨.attr, "id".toList, .eq, "5".toList⟩]) := by
+  simp only [Simp, SimpL, CondOK, sameOp, propText, id]
+  decide
+
+/-- simplification is needed: the parser builds `a AND b AND c` as `(a AND b) AND c` -/
+example :
+    (parseExpr ⟨fun _ => true, fun _ => false, fun v => ⟨.attr, ['?'], .eq, v⟩, id⟩ 20 0
+      [⟨.property, ['a']⟩, ⟨.comparator, ['=']⟩, ⟨.property, ['1']⟩, ⟨.and, "AND".toList⟩,
+       ⟨.property, ['b']⟩, ⟨.comparator, ['=']⟩, ⟨.property, ['2']⟩, ⟨.and, "and".toList⟩,
+       ⟨.property, ['c']⟩, ⟨.comparator, ['=']⟩, ⟨.property, ['3']⟩]).map (fun p => (p.1, p.2.length)) =
+    some (.comb true [.comb true [.cond ⟨.attr, ['a'], .eq, ['1']⟩, .cond ⟨.attr, ['b'], .eq, ['2']⟩], .cond ⟨.attr, ['c'], .eq, ['3']⟩], 0) := by
+  rfl
 
 /-- tie to the grammar source: the `STRING` rule and the order of the lexer rules are the ones
 the model transcribes (regenerated from `antlr/ContactQL.g4` on every run). -/
